@@ -22,7 +22,11 @@ WEIGHTS = {"get_duration": 0.6, "str": 0.3, "sample": 0.4, "current_phase_ref": 
 def run_case(ctx, idx, rng, tier):
     dev, reg = gen.header(rng, max_seq=0.5, p_builtin=0.2)
     mon = AtomicMonitor(ctx)
-    r = prog.Runner(ctx, dev, reg, [mon])
+    from vmon import objs
+    r = prog.Runner(ctx, dev, reg, [mon], env=objs.Env("param"))
+    own_var = rng.random() < 0.5
+    if own_var:  # a declared (still unused) variable: the sequence stays non-parametrized until a call *succeeds* with it
+        r.step({"op": "declare_variable", "name": "cv", "dtype": "int"})
     g = gen.ProgGen(rng, dev, reg, r.chspecs, weights=WEIGHTS)
     n = rng.randint(6, 30)
     k_inject = 6 if tier == "quick" else 10
@@ -33,6 +37,12 @@ def run_case(ctx, idx, rng, tier):
         # ---- fault injection at this position --------------------------------------
         ends = {nm: (c["slots"][-1]["tf"] if c["slots"] else 0) for nm, c in ev.post["chans"].items()}
         cat = invalid.invalid_ops(g, rng, ch_ends=ends)
+        if own_var and g.chans:
+            nm = next(iter(g.chans))
+            cat.append(("own-variable-refused", {"op": "delay", "duration": {"e": "var", "name": "cv"}, "ch": "nope"}))
+            cat.append(("own-variable-refused", {"op": "add_eom_pulse", "ch": nm if not g.chans[nm]["eom"] else "nope",
+                                                 "duration": {"e": "var", "name": "cv"}, "phase": 0.0}))
+            cat.append(("own-variable-refused", {"op": "align", "chs": [nm]}))
         rng.shuffle(cat)
         for kind, bad in cat[:k_inject]:
             bad = dict(bad, _inv=kind)
